@@ -337,10 +337,70 @@ def cases_file(tier, seed):
     for titles in (['Jan', 'Feb 2024', "Bob's"], ['S1', 'S2'], ['Data']):
         for style in ('plain', 'abs'):
             yield dict(kind='file', titles=titles, style=style)
+    for titles in (['Budget', 'Budget (2)', 'Summary'], ['S1', 'S2']):
+        for twins in (False, True):
+            yield dict(kind='file-names', titles=titles, twins=twins)
+
+
+def oracle_file_names(c):
+    """workbook-level names for a cell and a range, and - as after copying a sheet in Excel - names of the same spelling defined for ONE
+    sheet only and bound to that sheet's cells: formulas on the other sheets mean the workbook-level binding"""
+    import os
+    import tempfile
+    import xlcalculator
+    from drivers.common import observe
+    from drivers import c11
+    titles = c['titles']
+    sheets, expected = [], {}
+    for k, t in enumerate(titles):
+        base = 10 * (k + 1)
+        vals = {'A1': base + 1, 'A2': base + 2, 'A3': base + 3, 'B1': base + 4}
+        cells = [dict(r=a, kind='n', v=v) for a, v in vals.items()]
+        if k != 1:                                       # (sheet 1 is the copy that carries the sheet-level twins)
+            cells += [dict(r='D1', kind='f', f='rate*100', cached=None), dict(r='D2', kind='f', f='SUM(costs)+rate', cached=None)]
+            expected[f'{t}!D1'] = (10 + 4) * 100
+            expected[f'{t}!D2'] = 11 + 12 + 13 + 14
+        sheets.append((t, cells))
+    names = {'rate': f'{c11.q(titles[0])}!$B$1', 'costs': f'{c11.q(titles[0])}!$A$1:$A$3'}
+    if c['twins']:
+        names['rate@1'] = f'{c11.q(titles[1])}!$B$1'
+        names['costs@1'] = f'{c11.q(titles[1])}!$A$1:$A$3'
+    tmp = tempfile.mkdtemp(dir=os.path.join(c11.ROOT, 'scratch'))
+    fn = os.path.join(tmp, 'book.xlsx')
+    try:
+        c11.write_xlsx(fn, sheets, names)
+        model = xlcalculator.ModelCompiler().read_and_parse_archive(fn)
+    except Exception as ex:      # noqa
+        return False, 'the workbook loads', f'raise {type(ex).__name__}: {str(ex)[:160]}'
+    finally:
+        try:
+            os.remove(fn)
+            os.rmdir(tmp)
+        except OSError:
+            pass
+    ev = xlcalculator.Evaluator(model)
+    obs = {}
+    for a in expected:
+        try:
+            obs[a] = observe(ev.evaluate(a))
+        except Exception as ex:      # noqa
+            obs[a] = ('raise', type(ex).__name__)
+    bad = {a: (obs[a], expected[a]) for a in expected if obs[a] != ('num', expected[a])}
+    if bad:
+        return False, 'a workbook-level name means the cell / range it is bound to, on every sheet', str(bad)[:300]
+    ev.set_cell_value(f'{titles[0]}!B1', 2)              # the bound cell, overwritten: the formulas follow it
+    a = f'{titles[0]}!D1'
+    try:
+        o = observe(ev.evaluate(a))
+    except Exception as ex:      # noqa
+        o = ('raise', type(ex).__name__)
+    return o == ('num', 200.0), f'{a} == 200 after the cell the name is bound to was set to 2', o
 
 
 def oracle_file(c):
     """every sheet holds the SAME formula texts over unqualified ranges / cells; each must read its OWN sheet"""
+    if c['kind'] == 'file-names':
+        return oracle_file_names(c)
     import os
     import tempfile
     import xlcalculator
@@ -383,5 +443,5 @@ def oracle_file(c):
 
 
 DRIVERS.append(Driver('C03/B10.file', cases_file, oracle_file, nchunks=3, exhaustive=True,
-                      rule='workbooks written as raw SpreadsheetML with 1-3 identically laid-out sheets (titles needing quotes included) whose formulas have the SAME texts over unqualified cells and ranges, plain and $: loaded through the reader, every formula must read its own sheet',
-                      bound='3 workbooks x 2 spellings'))
+                      rule='workbooks written as raw SpreadsheetML with 1-3 identically laid-out sheets (titles needing quotes included) whose formulas have the SAME texts over unqualified cells and ranges, plain and $: loaded through the reader, every formula must read its own sheet; workbooks with workbook-level names for a cell and a range, with and without sheet-level names of the same spelling on a copied sheet: formulas on the other sheets read the workbook-level binding, also after the bound cell is overwritten',
+                      bound='3 workbooks x 2 spellings + 2 workbooks x 2 name tables'))
